@@ -69,6 +69,17 @@ CLAIMED = {
         technique="symbolic execution of the real cast compilation + z3; exhaustive evaluation of Cast.__init__ over a finite type universe",
         note=LEVEL_NOTE_MODELS + "; engine-native text formats are uninterpreted (only null-preservation decided)",
     ),
+    "C11": dict(
+        category="other",
+        text="Inductive-step verification conditions over abstract tables: for every table skeleton of bounded width (<= 3 columns; visibility / grouping enumerated) with SYMBOLIC column "
+        "names constrained only by the invariants (Cache representation invariant M1, coupling J with the backend state, physical-name injectivity P) and every verb (select, drop, "
+        "rename, mutate, filter, arrange, slice_head, group_by, ungroup, summarize, alias), the real verb function, the real Cache.update and the real polars.compile_ast (recursive "
+        "call answered by the pre-state) run symbolically with all name-aliasing cases explored; z3 discharges M1/J/P, the accessors and `exported columns == columns()` for the "
+        "post-state. By induction this covers all verb histories and name configurations - bounded only in table width, hence reported as a bounded stand-in, not a proof.",
+        design_ref="DESIGN.md §5.11",
+        technique="symbolic execution of the real verb/Cache/compile functions on bounded-width tables with symbolic names + z3 (inductive step)",
+        note="trusted: pdtv + z3; LazyFrame model (pdtv/lfmodel.py); A-uuid (fresh uuids / generated names); bound: table width <= 3; SQL side (M3) and join/union steps pending",
+    ),
 }
 
 NOT_YET = "check not built yet (engine under construction); will be claimed as soon as its obligations discharge"
@@ -89,7 +100,7 @@ def main():
                     "evidence_file": f"evidence/{pid}.json",
                     "replay_cmd_template": f"./check {pid} --replay {{path}}",
                     "engine": "pdtv",
-                    "level_claimed": {"category": "proof", "text": c["text"], "design_ref": c["design_ref"]},
+                    "level_claimed": {"category": c.get("category", "proof"), "text": c["text"], "design_ref": c["design_ref"]},
                     "level_note": c["note"],
                     "technique": c["technique"],
                 }
